@@ -9,10 +9,8 @@
 (* after the last window.                                                       *)
 EXTENDS Faults
 
-CONSTANTS Mode,        \* "node" | "net" | "cap" | "queue" | "mixed"
-          MaxW,        \* windows per schedule
-          TMax,        \* coarse grid 1..TMax (fine tick = 3 * coarse)
-          CancelModes  \* subset of 0..3
+CONSTANTS Configs      \* set of [mode, maxw, tmax, cms, devs]: window space "mode", up to maxw windows on the
+                       \* coarse grid 1..tmax, cancel modes cms, one run per deviation set in devs
 
 RECURSIVE SortSet(_)
 SortSet(S) == IF S = {} THEN <<>>
@@ -22,27 +20,31 @@ SeqOfSet(S) == IF S = {} THEN <<>> ELSE LET x == CHOOSE x \in S : TRUE IN <<x>> 
 RECURSIVE Concat(_, _)
 Concat(ss, i) == IF i > Len(ss) THEN <<>> ELSE ss[i] \o Concat(ss, i + 1)
 
-Ivals == { iv \in { <<3 * a, 3 * b>> : a \in 1..TMax, b \in 1..TMax } : iv[1] < iv[2] }
+Ivals(TMax) == { iv \in { <<3 * a, 3 * b>> : a \in 1..TMax, b \in 1..TMax } : iv[1] < iv[2] }
 W0(k, tg, iv, x) == [k |-> k, tg |-> tg, s |-> iv[1], e |-> iv[2], x |-> x, cm |-> 0, ct |-> 0]
-WithCancel(ws) == { [w EXCEPT !.cm = c, !.ct = IF c = 3 THEN w.s - 2 ELSE 0] : w \in ws, c \in CancelModes }
+WithCancel(ws, CancelModes) == { [w EXCEPT !.cm = c, !.ct = IF c = 3 THEN w.s - 2 ELSE 0] : w \in ws, c \in CancelModes }
 
-NodeWins(es) == { W0("crash", <<e>>, iv, 0) : e \in es, iv \in Ivals }
+NodeWins(es, TMax) == { W0("crash", <<e>>, iv, 0) : e \in es, iv \in Ivals(TMax) }
                 \cup { W0("crash", <<e>>, <<3 * a, Inf>>, 0) : e \in es, a \in 1..TMax }
-PartWins0(gs, xs) == { W0("part", <<g>>, iv, x) : g \in gs, iv \in Ivals, x \in xs }
-LatWins(ls, xs) == { W0("lat", l, iv, x) : l \in ls, iv \in Ivals, x \in xs }
-LossWins(ls) == { W0("loss", l, iv, 0) : l \in ls, iv \in Ivals }
-CapWins0(xs) == { W0("cap", <<0>>, iv, x) : iv \in Ivals, x \in xs }
+PartWins0(gs, xs, TMax) == { W0("part", <<g>>, iv, x) : g \in gs, iv \in Ivals(TMax), x \in xs }
+LatWins(ls, xs, TMax) == { W0("lat", l, iv, x) : l \in ls, iv \in Ivals(TMax), x \in xs }
+LossWins(ls, TMax) == { W0("loss", l, iv, 0) : l \in ls, iv \in Ivals(TMax) }
+CapWins0(xs, TMax) == { W0("cap", <<0>>, iv, x) : iv \in Ivals(TMax), x \in xs }
 
-WinSpace ==
-    CASE Mode = "node" -> NodeWins({1, 2})
-      [] Mode = "queue" -> NodeWins({Q})
-      [] Mode = "part" -> PartWins0({1, 2}, {0, 1})
-      [] Mode = "link" -> LatWins({<<11, 12>>}, {3, 6}) \cup LatWins({<<12, 11>>}, {3}) \cup LossWins({<<11, 12>>})
-      [] Mode = "net" -> PartWins0({1, 2}, {0}) \cup PartWins0({1}, {1}) \cup LatWins({<<11, 12>>}, {3})
-                         \cup LossWins({<<11, 12>>})
-      [] Mode = "cap" -> CapWins0({1, 2})
-      [] Mode = "mixed" -> NodeWins({1, 12}) \cup PartWins0({1}, {0}) \cup LatWins({<<11, 12>>}, {3})
-                           \cup LossWins({<<11, 12>>}) \cup CapWins0({2}) \cup NodeWins({Q})
+WinSpace(Mode, T) ==
+    CASE Mode = "node" -> NodeWins({1, 2}, T)
+      [] Mode = "queue" -> NodeWins({Q}, T)
+      [] Mode = "part" -> PartWins0({1, 2}, {0, 1}, T)
+      [] Mode = "link" -> LatWins({<<11, 12>>}, {3, 6}, T) \cup LatWins({<<12, 11>>}, {3}, T) \cup LossWins({<<11, 12>>}, T)
+      [] Mode = "net" -> PartWins0({1, 2}, {0}, T) \cup PartWins0({1}, {1}, T) \cup LatWins({<<11, 12>>}, {3}, T)
+                         \cup LossWins({<<11, 12>>}, T)
+      [] Mode = "cap" -> CapWins0({1, 2}, T)
+      [] Mode = "partS" -> PartWins0({1, 2}, {0}, T)
+      [] Mode = "latS" -> LatWins({<<11, 12>>}, {3}, T)
+      [] Mode = "lossS" -> LossWins({<<11, 12>>}, T)
+      [] Mode = "capS" -> CapWins0({2}, T)
+      [] Mode = "mixed" -> NodeWins({1, 12}, T) \cup PartWins0({1}, {0}, T) \cup LatWins({<<11, 12>>}, {3}, T)
+                           \cup LossWins({<<11, 12>>}, T) \cup CapWins0({2}, T) \cup NodeWins({Q}, T)
 
 Groups == << [a |-> <<11>>, b |-> <<12>>], [a |-> <<11>>, b |-> <<12, 13>>] >>
 
@@ -77,7 +79,7 @@ Probes(ws) ==
     IN Concat([i \in 1..Len(inst) |-> [q \in 1..Len(all) |-> [t |-> inst[i], x |-> all[q][1], y |-> all[q][2]]]], 1)
        \o (IF TouchedPairs(ws) # {} THEN <<[t |-> 4, x |-> 13, y |-> 11], [t |-> LastEdge(ws) + 4, x |-> 13, y |-> 11]>>
            ELSE <<>>)
-HoldSpace(ws) ==
+HoldSpace(ws, TMax) ==
     IF "cap" \notin Kinds(ws) THEN { <<>> }
     ELSE { <<>>,
            << [t |-> 1, a |-> 3, d |-> 6] >>,                              \* held across an early activation
@@ -85,25 +87,62 @@ HoldSpace(ws) ==
            << [t |-> 4, a |-> 2, d |-> 3], [t |-> 5, a |-> 2, d |-> 6] >>,  \* acquired inside / around
            << [t |-> 2, a |-> 1, d |-> 3], [t |-> 7, a |-> 3, d |-> 3], [t |-> 8, a |-> 1, d |-> 9] >> }
 
-Workload(ws, hs) ==
+Workload(ws, hs, Mode, dv) ==
     LET tg == CrashTargets(ws)
         jobs == (IF Mode \in {"node"} THEN NodeJobs(ws, 1, 3) \o NodeJobs(ws, 2, 1)
                  ELSE IF 1 \in tg THEN NodeJobs(ws, 1, 2) \o NodeJobs(ws, 2, 1) ELSE <<>>)
                 \o (IF Q \in tg THEN QJobs(ws) ELSE <<>>)
-    IN [C |-> 4, L0 |-> 3, H |-> LastEdge(ws) + 15 + 3 * Len(jobs), wins |-> ws, groups |-> Groups,
+    IN [dev |-> dv, C |-> 4, L0 |-> 3, H |-> LastEdge(ws) + 15 + 3 * Len(jobs), wins |-> ws, groups |-> Groups,
         jobs |-> jobs, probes |-> Probes(ws), holds |-> hs]
 
-WS == SeqOfSet(WithCancel(WinSpace))
 Mono(f, n, dir) == \A i \in 1..(n - 1) : IF dir = 1 THEN f[i] <= f[i + 1] ELSE f[i] > f[i + 1]
 
 Init ==
-    /\ \E n \in 0..MaxW : \E f \in [1..n -> 1..Len(WS)] : \E dir \in {1, 2} :
-         /\ Mono(f, n, dir)
-         /\ (n <= 1 => dir = 1)
-         /\ LET ws == [i \in 1..n |-> WS[f[i]]] IN
-            \E hs \in HoldSpace(ws) : sch = Workload(ws, hs)
+    /\ \E c \in Configs :
+         LET WS == SeqOfSet(WithCancel(WinSpace(c.mode, c.tmax), c.cms)) IN
+         \E n \in 0..c.maxw : \E f \in [1..n -> 1..Len(WS)] : \E dir \in {1, 2} :
+           /\ Mono(f, n, dir)
+           /\ (n <= 1 => dir = 1)
+           /\ LET ws == [i \in 1..n |-> WS[f[i]]] IN
+              \E hs \in HoldSpace(ws, c.tmax) : \E dv \in c.devs : sch = Workload(ws, hs, c.mode, dv)
     /\ m = InitM(sch)
 
-Spec == Init /\ [][Next]_vars
+\* a finished run under some deviation reports which contract clauses it breaks (sensitivity of the
+\* invariants: every deviation alone must make a clause false somewhere in the bounded model)
+Broken == { c \in { <<"InvCrashQuiet", CrashQuiet(ML)>>, <<"InvUnaffected", Unaffected(ML)>>,
+                    <<"InvResumes", Resumes(ML)>>, <<"InvPartition", PartBad(ML) = {}>>,
+                    <<"InvLoss", LossBad(ML) = {}>>, <<"InvLatency", LatBad(ML) = {}>>,
+                    <<"InvCapacity", CapBad(ML) = {}>>, <<"InvTraffic", Traffic(ML)>>,
+                    <<"InvEndState", EndBad(ML) = {}>> } : ~c[2] }
+Report == /\ Done(m) /\ sch.dev # {}
+          /\ \A c \in Broken : PrintT(<<"S", sch.dev, c[1]>>)
+          /\ UNCHANGED vars
+MCNext == Next \/ Report
+
+Spec == Init /\ [][MCNext]_vars
 GenNext == FALSE /\ UNCHANGED vars
+
+\* ---- configurations (cfg files cannot write records) ------------------------
+Cfg(mode, maxw, tmax, cms, devs) == [mode |-> mode, maxw |-> maxw, tmax |-> tmax, cms |-> cms, devs |-> devs]
+Plain(mode, maxw, tmax) == Cfg(mode, maxw, tmax, {0}, {{}})
+Sens == { Cfg("node", 1, 2, {0}, {{"continuation_ignores_crash"}}),
+          Cfg("node", 2, 2, {0}, {{"bool_flag_not_refcount"}}),
+          Cfg("queue", 1, 2, {0}, {{"queued_worker_ignores_crash"}}),
+          Cfg("partS", 2, 3, {0}, {{"heal_removes_shared_pairs"}}),
+          Cfg("latS", 2, 3, {0}, {{"lat_restore_captured_original"}}),
+          Cfg("lossS", 2, 3, {0}, {{"loss_restore_captured_original"}}),
+          Cfg("capS", 2, 3, {0}, {{"capacity_restore_captured_original"}, {"capacity_restore_adds_delta"}}),
+          Cfg("mixed", 1, 2, {1}, {{"cancel_before_start_ineffective"}}) }
+MCQuick == Sens \cup { Plain("node", 2, 3), Plain("node", 3, 2), Plain("queue", 2, 3), Plain("part", 2, 3),
+                       Plain("link", 2, 2), Plain("cap", 2, 3), Plain("mixed", 2, 2),
+                       Cfg("mixed", 1, 2, {0, 1, 2, 3}, {{}}) }
+MCThorough == Sens \cup { Plain("node", 3, 4), Plain("node", 2, 5), Plain("queue", 3, 3), Plain("queue", 2, 4),
+                          Plain("part", 3, 3), Plain("link", 3, 3), Plain("net", 3, 3), Plain("cap", 3, 3),
+                          Plain("cap", 2, 4), Plain("mixed", 2, 3), Plain("mixed", 3, 2),
+                          Cfg("mixed", 2, 2, {0, 1, 2, 3}, {{}}), Cfg("node", 2, 3, {0, 1, 2, 3}, {{}}) }
+GenQuick == { Plain("node", 2, 3), Plain("queue", 2, 3), Plain("part", 2, 3), Plain("link", 2, 2),
+              Plain("cap", 2, 3), Plain("mixed", 2, 2), Cfg("mixed", 1, 3, {0, 1, 2, 3}, {{}}) }
+GenThorough == { Plain("node", 3, 3), Plain("queue", 2, 4), Plain("part", 3, 3), Plain("link", 3, 3),
+                 Plain("net", 2, 3), Plain("cap", 3, 3), Plain("mixed", 2, 3),
+                 Cfg("mixed", 2, 2, {0, 1, 2, 3}, {{}}), Cfg("node", 2, 3, {0, 1, 2, 3}, {{}}) }
 =============================================================================
